@@ -45,6 +45,9 @@ type Task struct {
 	// echo suppression: task-level `silent: true`, every command `silent: true`
 	Silent    bool `json:"silent,omitempty"`
 	CmdSilent bool `json:"cmd_silent,omitempty"`
+	// SubGuard: the first command is `task: child<tid>`; the child has no sources, the precondition
+	// `test -f <SubGuard>` and one command appending to the trace
+	SubGuard string `json:"subguard,omitempty"`
 }
 
 // defName is the name of the definition in the Taskfile (what goes on the command line).
@@ -215,6 +218,9 @@ func RenderTaskfile(proj []Task, fileSilent bool) string {
 		if t.Def != "" {
 			who = "{{.ENV}}"
 		}
+		if t.SubGuard != "" {
+			fmt.Fprintf(&sb, "      - task: child%d\n", tid)
+		}
 		for i := 0; i < t.NCmds; i++ {
 			c := fmt.Sprintf(`if [ "$VH_KILL" = "%d" ]; then kill -9 $$; fi; echo "%s %d" >> "$VH_ROOT/trace.log"; [ "$VH_FAIL" != "%d" ]`, i, who, i, i)
 			if i == t.NCmds-1 {
@@ -228,6 +234,17 @@ func RenderTaskfile(proj []Task, fileSilent bool) string {
 				fmt.Fprintf(&sb, "      - %s\n", yq(c))
 			}
 		}
+	}
+	for tid, t := range proj {
+		if t.SubGuard == "" {
+			continue
+		}
+		up := ""
+		if t.Dir != "" {
+			up = "../"
+		}
+		fmt.Fprintf(&sb, "  child%d:\n    preconditions:\n      - %s\n    cmds:\n      - %s\n", tid,
+			yq("test -f "+up+t.SubGuard), yq(fmt.Sprintf(`echo "%d %d" >> "$VH_ROOT/trace.log"`, tid, t.NCmds)))
 	}
 	if len(calls) > 0 {
 		sb.WriteString("  all:\n    cmds:\n")
@@ -436,6 +453,8 @@ func (r *runner) invoke(at int64, o Op) (res string, exit int, err error) {
 		switch {
 		case code == 0 && upToDate:
 			return "skipped", 0, nil
+		case code == 201:
+			return "failed", code, nil // a followed `task:` sub-call failed (callee precondition)
 		case code == 0 && quiet:
 			return "dryq", 0, nil // nothing was said: up to date or not cannot be told
 		case code == 0:
